@@ -693,7 +693,7 @@ def header_args_footer_to_str(header, args_returns, footer):
     )
 
     return "{header}{maybe_nl0}{args_returns}{maybe_nl1}{footer}{maybe_nl2}".format(
-        header=header,
+        header=header or "",  # a missing part is `None`, which must not be rendered as the text "None"
         maybe_nl0="\n" * nls_needed_after_header,
         args_returns=args_returns,
         maybe_nl1=(
@@ -704,7 +704,7 @@ def header_args_footer_to_str(header, args_returns, footer):
             and not args_returns_ends_nls
             else ""
         ),
-        footer=footer,
+        footer=footer or "",
         maybe_nl2="",  # if foot_end_has_nl else "\n",
     )
 
